@@ -53,6 +53,8 @@ PROPS = {
 }
 
 LEVEL = {"C20": "fault_enumeration"}
+# native fuzz targets, thorough tier only (go's fuzzer cannot be seeded: reproducible through saved crashers only)
+FUZZ = {"C01": ["FuzzParseAndRender"], "C05": ["FuzzScan"], "C06": ["FuzzBlocks"], "C19": ["FuzzDelims"]}
 DEATH_IS_VIOLATION = {"C01"}
 
 
@@ -253,6 +255,15 @@ def _run(prop, tier, test, seed, nshards, binary, outdir, t0):
         if a["requested"] and a["evaluations"] < a["requested"] and not any(v.get("check") == a["name"] for v in violations):
             problems.append("check %s ran %d cases of %d requested" % (a["name"], a["evaluations"], a["requested"]))
 
+    fuzz_info = []
+    if tier == "thorough" and prop in FUZZ and not violations:
+        for target in FUZZ[prop]:
+            info = run_fuzz(prop, target, outdir)
+            fuzz_info.append(info)
+            violations.extend(info.pop("violations"))
+            problems.extend(info.pop("problems"))
+            evaluations += info.get("execs", 0)
+
     real = [v for v in violations if v.get("sig") != "harness-error"]
     harness_errors = [v for v in violations if v.get("sig") == "harness-error"]
     for v in harness_errors:
@@ -268,6 +279,7 @@ def _run(prop, tier, test, seed, nshards, binary, outdir, t0):
             "exhaustive": bool(subs) and all(a["exhaustive"] for a in subs.values()),
             "checks": breakdown, "shards": nshards,
             "known_findings_hit": {k: kf_hits[k] for k in sorted(kf_hits)},
+            "native_fuzz_campaigns": fuzz_info,
             "inconclusive": problems,
         },
         "assumptions": [
@@ -302,6 +314,52 @@ def _run(prop, tier, test, seed, nshards, binary, outdir, t0):
             log("INCONCLUSIVE: " + p)
         return 2
     return 0
+
+
+def run_fuzz(prop, target, outdir):
+    """One coverage-guided campaign of a native fuzz target (its oracle is the check's own Eval)."""
+    import re
+    fuzztime = os.environ.get("VERIF_FUZZTIME", "120s")
+    cache = os.path.join(WORK, "fuzzcache")
+    os.makedirs(cache, exist_ok=True)
+    crashdir = os.path.join(HARNESS, "props", "testdata", "fuzz", target)
+    shutil.rmtree(crashdir, ignore_errors=True)
+    cmd = ["go", "test", "-tags", "verif", "-run", "^$", "-fuzz", "^%s$" % target, "-fuzztime", fuzztime,
+           "./props", "-test.fuzzcachedir", cache]
+    t0 = time.time()
+    env = goenv()
+    env["VERIF_OUT"] = outdir
+    try:
+        p = subprocess.run(cmd, cwd=HARNESS, env=env, stdout=subprocess.PIPE, stderr=subprocess.STDOUT, text=True, timeout=3600)
+        out, rc = p.stdout, p.returncode
+    except subprocess.TimeoutExpired as e:
+        out, rc = (e.stdout or "") + "\n[driver] fuzz campaign timed out", 2
+    info = {"target": target, "fuzztime": fuzztime, "wall_s": round(time.time() - t0, 1), "execs": 0, "violations": [], "problems": []}
+    m = re.findall(r"execs: (\d+)", out)
+    if m:
+        info["execs"] = int(m[-1])
+    m = re.findall(r"new interesting: (\d+) \(total: (\d+)\)", out)
+    if m:
+        info["corpus_total"] = int(m[-1][1])
+    for line in out.splitlines():
+        i = line.find("VERIF-VIOLATION ")
+        if i >= 0:
+            try:
+                info["violations"].append(json.loads(line[i + len("VERIF-VIOLATION "):]))
+            except ValueError:
+                info["problems"].append("unparsable fuzz violation: " + line[:500])
+    if rc != 0 and not info["violations"]:
+        saved = []
+        if os.path.isdir(crashdir):
+            dst = os.path.join(ROOT, "replays", prop)
+            os.makedirs(dst, exist_ok=True)
+            for f in os.listdir(crashdir):
+                shutil.copy(os.path.join(crashdir, f), os.path.join(dst, "fuzz-%s-%s" % (target, f)))
+                saved.append(os.path.join(dst, "fuzz-%s-%s" % (target, f)))
+        info["problems"].append("fuzz target %s ended abnormally (rc=%s) without a recorded violation; crashers kept: %s\n%s" % (target, rc, saved, out[-2500:]))
+    shutil.rmtree(crashdir, ignore_errors=True)
+    log("  native fuzz %-22s %s, %d execs, %d violation(s)" % (target, fuzztime, info["execs"], len(info["violations"])))
+    return info
 
 
 def confirm_death(binary, jcase, outdir):
